@@ -83,6 +83,17 @@ vgatherdpd (%rax,%xmm1,8), %ymm2, %ymm3
 prefetcht0 64(%rdi)
 foobarq (%rax), %rbx
 vunknownpd %ymm0, (%rax)
+adcq %rbx, (%rax)
+adcl $1, 4(%rdi)
+adc %rbx, (%rax)
+sbbq %rcx, 8(%rsi)
+sbbl (%rsi), %edx
+negq (%rax)
+notl 4(%rdi)
+shlq $1, (%rax)
+sarl $3, 8(%rdi)
+xaddq %rax, (%rdi)
+subl $1, (%rdi,%rcx,4)
 vaddpd tab(%rax), %ymm1, %ymm2
 vmulsd .LC0(%rip), %xmm0, %xmm1
 movq glob(%rip), %rax
@@ -270,6 +281,39 @@ def synthetic(ctx, nworlds, seed_base=None):
     return cases
 
 
+X86_READ_ONLY = ("cmp", "test", "bt", "ucomis", "comis", "vucomis", "vcomis", "ptest", "vptest")
+X86_RMW = ("add", "sub", "adc", "sbb", "inc", "dec", "neg", "not", "and", "or", "xor", "shl", "shr", "sar", "sal", "rol", "ror", "xadd")
+
+
+def architectural_access(isa, text):
+    """How the instruction accesses its memory operand according to the architecture manuals ('load', 'store', 'load+store'),
+    or None when this table does not decide it (lea, prefetch, push/pop, unknown mnemonics, gathers).  Independent of OSACA's
+    ISA database and of its suffix fall-backs."""
+    mn, _, rest = text.strip().partition(" ")
+    ops = [o.strip() for o in __import__("re").split(r",(?![^(\[]*[)\]])", rest)] if rest else []
+    if isa == "x86":
+        mems = [i for i, o in enumerate(ops) if "(" in o]
+        if len(mems) != 1 or mn.startswith(("lea", "prefetch", "push", "pop", "foobar", "vunknown", "vgather")):
+            return None
+        last = mems[0] == len(ops) - 1
+        base = mn.lower()
+        stem = lambda names: any(base == n or (base[:-1] == n and base[-1] in "bwlq") for n in names)
+        if stem(X86_READ_ONLY) or base.startswith(("vucomis", "ucomis", "vcomis", "comis")):
+            return "load"
+        if not last:
+            return "load"
+        if stem(X86_RMW):
+            return "load+store"
+        if base.startswith(("mov", "vmov")):
+            return "store"
+        return None
+    if mn.startswith(("ldr", "ldur", "ldp", "ld1", "ldnp")):
+        return "load"
+    if mn.startswith(("str", "stur", "stp", "st1", "stnp")):
+        return "store"
+    return None
+
+
 def real(ctx):
     """curated vocabulary on every shipped model; each line costed twice (file order, then reversed) on the shared
     model: the numbers must not depend on the history, and the model's tables must stay as loaded."""
@@ -314,6 +358,11 @@ def real(ctx):
                 if k in ("compose", "unknown"):
                     ctx.nontriv(case_key(c))
                 judge(ctx, c, rp)
+                acc = architectural_access(isa, text)
+                if acc is not None and k == "compose" and role_of(c) != acc:
+                    ctx.violation("composed-with-wrong-memory-access", "%s `%s`: analysed as register form + %s data, but the instruction performs a %s "
+                                  "of its memory operand" % (a, text, role_of(c), acc), rp)
+                hist_add(hist, "access-checked" if acc is not None and k == "compose" else "access-not-checked")
                 cases.append((c, rp))
         if C.tables_snapshot(mm) != snap:
             ctx.violation("model-tables-mutated", "costing the vocabulary on %s changed the model's load/store tables (C18)" % a, {"arch": a, "text": None})
